@@ -103,8 +103,8 @@ func caseGallina(p cProgram, r *sched.Rig, keys []string) string {
 		sc = append(sc, gal.Pair(fmt.Sprint(e[0])+"%nat", gal.Bool(e[1] == 1)))
 	}
 	var gr []string
-	for _, g := range r.Grants {
-		gr = append(gr, gal.Tuple(gal.N(uint64(g.Thread)), gal.N(uint64(g.Slot)), gal.Bool(g.Excl)))
+	for _, g := range r.Events {
+		gr = append(gr, gal.Tuple(gal.N(uint64(g.Thread)), gal.N(uint64(g.Slot)), gal.Bool(g.Excl), gal.Bool(g.Release)))
 	}
 	var ks []string
 	for _, k := range keys {
@@ -132,8 +132,11 @@ func genCReq(r *rig.Rand, key string, kinds []string) stack.Req {
 		q = stack.Req{Kind: "get", Items: []stack.GItem{{Key: []byte(key), Opaque: q.Opaque}}}
 	case "mget":
 		q = stack.Req{Kind: "get", Items: []stack.GItem{{Key: []byte(cKeys[0]), Opaque: 1, Quiet: true}, {Key: []byte(cKeys[1]), Opaque: 2, Quiet: true}}, NoopEnd: true, NoopOpq: 9}
-		if r.Bool() {
+		switch r.Intn(3) {
+		case 0:
 			q.Items[0], q.Items[1] = q.Items[1], q.Items[0] // overlapping keys in the opposite order
+		case 1:
+			q.Items[1].Key = q.Items[0].Key // the same key (hence the same lock) twice
 		}
 	}
 	return q
@@ -196,6 +199,12 @@ func concurrent(e *env, prop string, mode int) {
 					p.Threads[t].Orca = "l1only"
 				}
 			}
+			if mode == 12 && i%3 == 0 {
+				// two connections doing multi-key gets over the same keys (opposite orders / duplicates)
+				for t := range p.Threads {
+					p.Threads[t].Reqs[0] = genCReq(r, cKeys[0], []string{"mget"})
+				}
+			}
 			if mode == 12 && r.Chance(70) {
 				// a panic at some handler call of thread 0; another thread works on the same keys afterwards
 				p.Threads[0].FailAt = r.Intn(4)
@@ -245,6 +254,9 @@ func concurrent(e *env, prop string, mode int) {
 				continue
 			}
 			// Go-side oracles of C12
+			if rg.MultiHeld != "" {
+				w.Fail(rig.GoFailure{Kind: "counterexample", What: "a connection held more than one key lock at a time: " + rg.MultiHeld, Input: pp})
+			}
 			if rg.LocksHeld() != 0 {
 				w.Fail(rig.GoFailure{Kind: "counterexample", What: "a key lock is still held after all connections finished", Input: pp, Detail: fmt.Sprint(rg.LocksHeld())})
 			}
